@@ -40,6 +40,12 @@ def modelled : List String := [
   "utils.CheckBigIntArrayInField",
   "utils.CheckBigIntInField",
   "utils.ElementArrayToBigIntArray",
+  "tree.<layout>@constants",
+  "tree.<layout>@ff",
+  "tree.<layout>@poseidon",
+  "tree.<layout>@root",
+  "tree.<layout>@utils",
+  "constants.<decls>@constants.go",
   "ff.<asm>@element_mul_adx_amd64.s",
   "ff.<asm>@element_mul_amd64.s",
   "ff.<asm>@element_ops_amd64.s",
@@ -55,9 +61,9 @@ def modelled : List String := [
 
 theorem source_pinned : modelled.all (same I3.Gen.fingerprints) = true := by decide +kernel
 
-theorem function_set_pinned : (["ff.", "poseidon.", "utils."] : List String).all (sameKeys I3.Gen.fingerprints) = true := by
+theorem function_set_pinned : (["constants.", "ff.", "poseidon.", "utils."] : List String).all (sameKeys I3.Gen.fingerprints) = true := by
   decide +kernel
 
-theorem modelled_nonempty : 42 = modelled.length := by decide
+theorem modelled_nonempty : 48 = modelled.length := by decide
 
 end I3.Props.C01
